@@ -308,6 +308,32 @@ impl Clone for SharedModuleData {
     }
 }""", "handle clones sometimes do not hold the module")
 
+
+F = "src/runtime/func.rs"
+# ---------------- C12
+m("c12-sync-bound-removed-from-closures", "C12", F,
+  """            F: Fn($($a,)*) -> $r + Send + Sync + 'static,""",
+  """            F: Fn($($a,)*) -> $r + Send + 'static,""", "F4 unrepaired: blanket impl for closures does not require Sync")
+M[-1]["extra"] = [("pub trait RegisterableFn<A, R, MaybeOutPtr>: Send + Sync + 'static {", "pub trait RegisterableFn<A, R, MaybeOutPtr>: Send + 'static {")]
+m("c12-shared-scratch-for-large-slots", "C12", G,
+  """        for (v, slot) in stack_slots {
+            let pointer_ty = self.module.isa.pointer_type();
+            let p = self.ins().stack_addr(pointer_ty, slot, 0);
+            self.def(self.module.variable_map[&v].0, p);
+        }""",
+  """        for (v, slot) in stack_slots {
+            let pointer_ty = self.module.isa.pointer_type();
+            let size = self.builder.func.sized_stack_slots[slot].size;
+            let p = if size >= 32 && size <= 40 {
+                // (mutant) large temporaries live in a per-function scratch buffer instead of the stack
+                let buf: &'static mut [u64] = Box::leak(vec![0u64; 8].into_boxed_slice());
+                self.ins().iconst(pointer_ty, buf.as_ptr() as i64)
+            } else {
+                self.ins().stack_addr(pointer_ty, slot, 0)
+            };
+            self.def(self.module.variable_map[&v].0, p);
+        }""", "32-40 byte temporaries live in a per-function static buffer: calls on two threads share it")
+
 def sh(cmd, **kw):
     return subprocess.run(cmd, shell=True, capture_output=True, text=True, **kw)
 
